@@ -31,7 +31,13 @@ def inline_silent_rules(expr: Expression, rules: Mapping[str, Rule]) -> Expressi
     if isinstance(expr, Identifier) and not expr.tag:
         # A tagged reference is kept: the tag context lives on the Identifier.
         # A reference to an undefined rule is left for parse time to report.
+        # WHITESPACE and COMMENT always run atomically, whatever their modifier:
+        # their body means something else in the referencing rule.
         rule = rules.get(expr.value)
-        if rule and rule.modifier & SILENT:
+        if (
+            rule
+            and rule.modifier == SILENT
+            and expr.value not in ("WHITESPACE", "COMMENT")
+        ):
             return rule.expression
     return expr
